@@ -741,7 +741,7 @@ func (ls *LState) formattedFrameFuncName(fr *callFrame) string {
 	if ischunk {
 		return name
 	}
-	if name[0] != '(' && name[0] != '<' {
+	if name == "" || (name[0] != '(' && name[0] != '<') {
 		return fmt.Sprintf("function '%s'", name)
 	}
 	return fmt.Sprintf("function %s", name)
